@@ -67,6 +67,8 @@ BANG_OPS = [
     "XSra", "XSrl", "XStrConcat", "XSub", "XSubst", "XSubstr", "XTail", "XToLower", "XToUpper", "XXor",
 ]
 
+VALUE_CONT = ("LBrace", "LSquare", "Dot", "Paste")
+
 BLOCK = A(S(T("LBrace"), R(N("Statement")), T("RBrace")), N("Statement"))
 
 G = {
@@ -136,7 +138,13 @@ G = {
     "Uninitialized": T("Question"),
     "Bits": bracketed("LBrace", N("Value"), "RBrace"),
     "List": S(bracketed("LSquare", N("Value"), "RSquare"), O(S(T("Less"), N("Type"), T("Greater")))),
-    "Dag": S(T("LParen"), N("DagArg"), O(N("DagArgList")), T("RParen")),
+    # a `{`, `[`, `.` or `#` right after the operator value continues that value (suffix / paste),
+    # it cannot start the first argument (maximal munch, as in llvm-tblgen)
+    "Dag": S(T("LParen"),
+             A(S(N("Value"), T("Colon"), T("VarName"), O(N("DagArgList"))),
+               S(T("VarName"), O(N("DagArgList"))),
+               S(N("Value"), O(NF(VALUE_CONT, N("DagArgList"))))),
+             T("RParen")),
     "DagArgList": sep_list(N("DagArg")),
     "DagArg": A(S(N("Value"), O(S(T("Colon"), T("VarName")))), T("VarName")),
     "Identifier": T("Id"),
@@ -167,11 +175,15 @@ def grammar_with_known(listed):
     if "C04_DAG_OPERATOR_RESTRICTED" in listed:
         op_first = ("Id", "XCast", "Question", "XGetDagOp")
         not_op = tuple(sorted((FIRST["DagArg"]) - set(op_first)))
-        g["Dag"] = S(T("LParen"), NF(not_op, N("DagArg")), O(N("DagArgList")), T("RParen"))
+        g["Dag"] = S(T("LParen"),
+                     A(S(NF(not_op, N("Value")), T("Colon"), T("VarName"), O(N("DagArgList"))),
+                       S(NF(not_op, N("Value")), O(NF(VALUE_CONT, N("DagArgList"))))),
+                     T("RParen"))
     if "C04_COND_WITHOUT_CLAUSE" in listed:
         g["CondOperator"] = S(T("XCond"), T("LParen"), O(S(sep_list(N("CondClause")), O(T("Comma")))), T("RParen"))
     if "C04_SLICE_ELEMENT_SECOND_VALUE" in listed:
-        g["SliceElement"] = S(N("Value"), O(A(S(T("DotDotDot"), N("Value")), S(T("Minus"), N("Value")), N("Value"))))
+        g["SliceElement"] = S(N("Value"), O(A(S(T("DotDotDot"), N("Value")), S(T("Minus"), N("Value")),
+                                              NF(VALUE_CONT, N("Value")))))
     return g
 
 
